@@ -17,7 +17,8 @@
    C15_pv_sum was false, witness in AccountingFacts.pv_before_fix_refuted
    (request -1000 W, bounds -300/-600, both calls ok: 0 + 0 + (-100) <> -1000). *)
 From Coq Require Import Permutation Lia Lqa.
-From Verif Require Import model.Accounting proofs.AccountingFacts proofs.AccountingSaturation.
+From Verif Require Import model.Accounting proofs.AccountingFacts proofs.AccountingSaturation proofs.AccountingEndToEnd.
+From Verif Require model.Dist.
 Open Scope Q_scope.
 
 (* ------------------------------------------------------------------ battery pools *)
@@ -55,6 +56,21 @@ Proof. intros x W H. rewrite <- ok_setpoints_spec. exact (bat_succeeded_power x 
 Theorem C15_bat_kind : forall x, bat_wf x -> b_dist x <> [] ->
   ((exists p s e, bat_result x = Success p s e) <-> Forall (fun o => call_failed o = false) (b_out x)).
 Proof. exact bat_kind. Qed.
+
+(* END TO END: set-points and remaining power computed by the model of the real distribution algorithm
+   (model/Dist.v) from ANY battery/inverter data [gs], any pow function, any request the algorithm does not
+   treat as zero (|p| > 1e-9 W), any inverter->battery map, ANY outcome vector.  C01's identity is no longer a
+   hypothesis: it is discharged by the lemma behind C01_sum (DistFacts.distribute_sum). *)
+Theorem C15_bat_end_to_end : forall powf gs p r m outs,
+  Dist.czero p = false -> Dist.distribute powf gs p = Some r ->
+  let x := bat_of_distribution p r m outs in
+  bat_wf x -> Dist.res_dist r <> [] ->
+  r_reported (bat_result x) = true /\
+  r_succeeded_power (bat_result x) + r_failed_power (bat_result x) + r_excess (bat_result x) == p /\
+  r_failed_power (bat_result x) == qsum (map snd (failed_calls (Dist.res_dist r) outs)) /\
+  r_succeeded_power (bat_result x) == qsum (map snd (ok_calls (Dist.res_dist r) outs)) /\
+  r_excess (bat_result x) == Dist.res_rem r.
+Proof. exact bat_end_to_end. Qed.
 
 (* ------------------------------------------------------------------ PV pools *)
 (* water filling: loop invariant for every list of inverters (sorted or not), every request *)
@@ -140,6 +156,7 @@ Print Assumptions C15_bat_sets.
 Print Assumptions C15_bat_failed.
 Print Assumptions C15_bat_succeeded.
 Print Assumptions C15_bat_kind.
+Print Assumptions C15_bat_end_to_end.
 Print Assumptions C15_pv_alloc.
 Print Assumptions C15_pv_sorted.
 Print Assumptions C15_pv_reported.
